@@ -50,7 +50,7 @@ def _fake_module(dirpath):
 
 def plan(tier, seed):
     n = 10 if tier == "quick" else 16
-    return [{"kind": "trees", "n": 45 if tier == "quick" else 500} for _ in range(n)]
+    return [{"kind": "trees", "n": 45 if tier == "quick" else 1600} for _ in range(n)]
 
 
 def run_shard(spec, acc):
